@@ -95,7 +95,7 @@ func buildAbstract(c fmtCase, trace string) (main M, imported M) {
 	case "strings":
 		t["env"] = M{"E1": "one", "E2": "two"}
 	case "scalars":
-		t["env"] = M{"E1": 17, "E2": true}
+		t["env"] = M{"E1": 2500000, "E2": true, "E3": 17} // (whole numbers print the same whatever the format's number type)
 	}
 	if c.val("variations") == "two" {
 		t["variations"] = L{M{"VV": "a"}, M{"VV": "b"}}
@@ -104,7 +104,7 @@ func buildAbstract(c fmtCase, trace string) (main M, imported M) {
 	case "strings":
 		t["variables"] = M{"tv": "tvalue"}
 	case "scalars":
-		t["variables"] = M{"tv": 5, "tb": false}
+		t["variables"] = M{"tv": 7000000, "tb": false, "tn": 5}
 	}
 	switch c.val("condition") {
 	case "true":
